@@ -8,6 +8,7 @@
 #define SPECTRA_SYM_GEIGS_CAYLEY_OP_H
 
 #include <Eigen/Core>
+#include <stdexcept>
 
 #include "../SymShiftInvert.h"
 #include "../SparseSymMatProd.h"
@@ -50,7 +51,10 @@ public:
     ///
     SymGEigsCayleyOp(OpType& op, const BOpType& Bop) :
         m_op(op), m_Bop(Bop), m_cache(op.rows())
-    {}
+    {
+        if (op.rows() != Bop.rows())
+            throw std::invalid_argument("SymGEigsCayleyOp: the A and B matrix operations must have the same size");
+    }
 
     ///
     /// Move constructor.
